@@ -108,8 +108,8 @@ theorem linksImp_eq (all : List (List (Nat × Dir × Bool))) :
   simpa using this
 
 theorem restFold (kvs : List (String × String)) : ∀ (acc : String),
-    kvs.foldl (fun acc (kv : String × String) => acc ++ ",\n" ++ "\"" ++ kv.1 ++ "\": " ++ kv.2 ++ "\n") acc =
-      acc ++ String.join (kvs.map fun (kv : String × String) => ",\n" ++ "\"" ++ kv.1 ++ "\": " ++ kv.2 ++ "\n") := by
+    kvs.foldl (fun acc (kv : String × String) => acc ++ ",\n" ++ jsonStr kv.1 ++ ": " ++ kv.2 ++ "\n") acc =
+      acc ++ String.join (kvs.map fun (kv : String × String) => ",\n" ++ jsonStr kv.1 ++ ": " ++ kv.2 ++ "\n") := by
   induction kvs with
   | nil => intro acc; simp
   | cons a t ih =>
